@@ -154,4 +154,16 @@ def kwOperand : List Tok → Bool
   | _ :: rest => kwOperand rest
   | [] => false
 
+/-- F04r trigger (token level): a `?` (row `qm`) directly after a `(` or a `,` that is not followed by a key specifier
+token (`rhs` of its prefix nud in the table: name, integer, keyword name, `*`, `(`).  `LookupOperatorToken.__init__`
+(_xpath31_operators.py) zeroes lbp/rbp of such a token and `nud` returns it bare as an *argument placeholder* — also
+when the `(` is not an argument list (`( ? - n6 )`, `if ( ? - n6 ) …`, `n1 , ? - n6`). -/
+def placeholderAt (T : Tbl) (qm lp comma : Nat) : List Tok → Bool
+  | .op a :: .op b :: rest =>
+    ((a == lp || a == comma) && b == qm &&
+      !(match T.nud qm with | .prefix _ rhs => rhsOk rhs rest | _ => true)) ||
+    placeholderAt T qm lp comma (.op b :: rest)
+  | _ :: rest => placeholderAt T qm lp comma rest
+  | [] => false
+
 end EPV.Kw
